@@ -68,6 +68,42 @@ def getstate_effects(fi):
     return dropped, nulled, added, extras
 
 
+def _stored_attrs(prog, c):
+    out = set()
+    for k_ in prog.mro(c):
+        for m_ in k_.methods.values():
+            if m_.name == "__getstate__":
+                continue
+            for n_ in walk_no_nested(m_.node):
+                if isinstance(n_, ast.Attribute) and isinstance(n_.ctx, ast.Store) and isinstance(n_.value, ast.Name) and n_.value.id == "self":
+                    out.add(n_.attr)
+    return out
+
+
+def getstate_value_rule(ctx, prog, clause):
+    """For every __getstate__ in the package (reviewed or new): a pickled attribute keeps its live value - the state
+    may drop it, null it, reset a boolean flag or add pickle-only keys, but not replace an attribute by a *different*
+    value (the restored object would not be observationally identical to the one that was checkpointed)."""
+    n = 0
+    for c in sorted((c for c in prog.classes.values() if "__getstate__" in c.methods), key=lambda c: c.qual):
+        gs = c.methods["__getstate__"]
+        stored_attrs = _stored_attrs(prog, c)
+        dict_names = {"self"} | {t_.id for s_ in walk_no_nested(gs.node) if isinstance(s_, ast.Assign) for t_ in s_.targets if isinstance(t_, ast.Name)}
+        for s_ in walk_no_nested(gs.node):
+            if not (isinstance(s_, ast.Assign) and len(s_.targets) == 1 and isinstance(s_.targets[0], ast.Subscript) and isinstance(s_.targets[0].slice, ast.Constant) and isinstance(s_.targets[0].slice.value, str)):
+                continue
+            k_, v_ = s_.targets[0].slice.value, s_.value
+            if k_ not in stored_attrs:
+                continue  # pickle-only key
+            same = (isinstance(v_, ast.Attribute) and isinstance(v_.value, ast.Name) and v_.value.id == "self" and v_.attr == k_) or (isinstance(v_, ast.Subscript) and isinstance(v_.value, ast.Name) and v_.value.id in dict_names and isinstance(v_.slice, ast.Constant) and v_.slice.value == k_)
+            reset = isinstance(v_, ast.Constant) and (v_.value is None or v_.value is False)
+            n += 1
+            ctx.ob("R-PICKLE", clause, gs, f"{c.name}.__getstate__ pickles attribute `{k_}` with its live value (or drops / nulls / resets it), never a different value", same or reset, f"`{src(s_)[:90]}`" + ("" if same or reset else f": the restored `{k_}` differs from the checkpointed object's"), node=s_)
+    ctx.require(n >= 8, f"only {n} attribute stores found in the __getstate__ methods")
+    return n
+
+
+
 def setstate_restores(prog, c):
     f = prog.find_method(c, "__setstate__")
     out = set()
@@ -91,7 +127,20 @@ def run(ctx):
         ctx.require(gs is not None, f"{cq}.__getstate__ vanished")
         effects[cq] = getstate_effects(gs)
     found = [c.qual for c in prog.classes.values() if "__getstate__" in c.methods]
-    ctx.ob("R-PICKLE", "C12.1", "nessai", "every class with a custom __getstate__ is covered by this rule", set(found) == set(GETSTATE_CLASSES), f"found {sorted(found)}")
+    ctx.ob("R-PICKLE", "C12.1", "nessai", "every reviewed class still has its custom __getstate__", set(GETSTATE_CLASSES) <= set(found), f"found {sorted(found)}")
+    getstate_value_rule(ctx, prog, "C12.1")
+    for cq in sorted(found):
+        c = prog.cls(cq)
+        gs = c.methods["__getstate__"]
+        stored_attrs = _stored_attrs(prog, c)
+        if cq not in GETSTATE_CLASSES:
+            dropped_, nulled_, added_, extras_ = getstate_effects(gs)
+            restored_ = setstate_restores(prog, c)
+            rs_ = prog.find_method(c, "resume")
+            if rs_ is not None:
+                restored_ |= {n_.attr for n_ in walk_no_nested(rs_.node) if isinstance(n_, ast.Attribute) and isinstance(n_.ctx, ast.Store) and isinstance(n_.value, ast.Name) and n_.value.id == "self"}
+            for a_ in sorted(set(dropped_) | set(nulled_)):
+                ctx.ob("R-PICKLE", "C12.1", gs, f"{c.name}.__getstate__ (not in the reviewed table): dropped / nulled `{a_}` is re-assigned by __setstate__ or resume()", a_ in restored_ or a_ not in stored_attrs, f"re-assigned there: {sorted(restored_)[:12]}")
 
     # ---- samplers -----------------------------------------------------
     base_r = ctx.fn(tables.BASE + ".resume_from_pickled_sampler")
